@@ -3,7 +3,8 @@
 from hypothesis import strategies as st
 
 from .. import audio
-from ..common import Violation, import_auditok
+from ..common import HarnessError, Violation, import_auditok
+from ..oracles import ref_tokens
 from .c05 import expected_regions
 
 import_auditok()
@@ -55,7 +56,10 @@ def check_audio(case, rec_):
     src = CountingSource(data, sr, rec["sw"], rec["ch"])
     kw = dict(min_dur=mind, max_dur=maxd, max_silence=sild, drop_trailing_silence=win[3],
               strict_min_dur=win[4], energy_threshold=thr, use_channel=rec.get("uc"))
-    if via_reader:
+    overlap = bool(case.get("overlap")) and via_reader and B % 2 == 0 and not rec.get("thr0")
+    if overlap:
+        inp = auditok.AudioReader(src, block_dur=aw, hop_dur=(B // 2) / sr)
+    elif via_reader:
         inp = auditok.AudioReader(src, block_dur=aw)
     else:
         inp = src
@@ -64,8 +68,23 @@ def check_audio(case, rec_):
     if src.reads or src.samples_out:
         raise Violation(f"split() read {src.samples_out} samples before the first next()", case)
     _dec, exp = expected_regions(data, rec, win, thr)
+    H = B
+    if overlap:
+        # windows overlap by half; decisions from the exact energy of each overlapping window
+        from .. import oracles
+
+        H = B // 2
+        bps = rec["sw"] * rec["ch"]
+        spans, _V = oracles.block_model(N, B, H, None)
+        dec = []
+        for a, b in spans:
+            e = float(oracles.energy_db(data[a * bps: b * bps], rec["sw"], rec["ch"], rec.get("uc")))
+            if abs(e - thr) < 1.0:
+                raise HarnessError("overlapping window too close to the threshold")
+            dec.append(e >= thr)
+        exp = ref_tokens(dec, kmin, kmax, ksil, win[4], win[3])
     got = []
-    classes = {"audio_lazy"}
+    classes = {"audio_lazy"} | ({"audio_overlapping_reader"} if overlap else set())
     early = False
     for r in gen:
         i = len(got)
@@ -74,8 +93,10 @@ def check_audio(case, rec_):
             break
         s, e = exp[i]
         if round(r.start * sr) != s * B:
+            # (start = start window x block duration, also for overlapping windows)
             raise Violation(f"region {i} starts at sample {round(r.start * sr)}, expected {s * B}", case)
-        bound = (e + 1) * B if (e - s + 1) == kmax else (e + ksil + 2) * B
+        last = e if (e - s + 1) == kmax else (e + ksil + 1)  # index of the deciding window
+        bound = B + last * H
         if src.samples_out > min(bound, N):
             raise Violation(
                 f"region {i} (windows {s}..{e}) yielded after pulling {src.samples_out} samples; "
@@ -94,6 +115,7 @@ def explicit_cases():
     return [
         {"audio": base, "win": [2, 4, 1, False, False], "via_reader": False},
         {"audio": base, "win": [2, 4, 1, True, True], "via_reader": True},
+        {"audio": base, "win": [2, 4, 1, False, False], "via_reader": True, "overlap": True},
     ]
 
 
@@ -101,4 +123,5 @@ def explicit_cases():
 def strategy(draw):
     c = draw(audio.audio_case(maxwin=40, maxB=6))
     c["via_reader"] = draw(st.booleans())
+    c["overlap"] = draw(st.booleans())
     return c
